@@ -26,7 +26,7 @@ func VGSet() (*Set[int], []int) {
 
 func VHSetStep() {
 	s, pre := VGSet()
-	sets.VSetStep(s, pre, false, func() { v.Assert(s.items != nil, "inv-map-nil") })
+	sets.VSetStep(s, pre, false, "HashSet", func() { v.Assert(s.items != nil, "inv-map-nil") })
 }
 
 func vSetOnly() *Set[int] { s, _ := VGSet(); return s }
